@@ -530,8 +530,9 @@ class Inliner:
             self._expr_calls(st, fn, fq, cls)
             # a call to a multi-statement helper that is evaluated first inside a simple statement is hoisted:
             #   return f(helper(x))   →   <helper body, result in t>; return f(t)
-            if isinstance(st, (ast.Return, ast.Assign, ast.AnnAssign, ast.Expr)) and getattr(st, "value", None) is not None:
-                hc = self._first_evaluated_helper_call(st.value, fn, fq, cls)
+            slot_ = "exc" if isinstance(st, ast.Raise) else "value"
+            if isinstance(st, (ast.Return, ast.Assign, ast.AnnAssign, ast.Expr, ast.Raise)) and getattr(st, slot_, None) is not None:
+                hc = self._first_evaluated_helper_call(getattr(st, slot_), fn, fq, cls)
                 if hc is not None:
                     call, (callee, cfq, recv) = hc
                     self._k += 1
@@ -546,7 +547,7 @@ class Inliner:
                                 if c is call:
                                     return ast.copy_location(ast.Name(id=tmp, ctx=ast.Load()), c)
                                 return self_.generic_visit(c)
-                        st.value = R().visit(st.value)
+                        setattr(st, slot_, R().visit(getattr(st, slot_)))
                         self.inlined.add(cfq)
                         self.count += 1
                         stmts[i:i] = pre
